@@ -1275,3 +1275,177 @@ Proof.
     [Start 0; Start 1; Pick 0; Pick 1; FinishFail 0; WalkReturn; FinishOk 1].
   eexists. split; vm_compute; reflexivity.
 Qed.
+
+(* ------------------------------------------------------------------ C05 / C18 *)
+
+Lemma run_from_app g c l1 : forall l2 s,
+  run_from g c s (l1 ++ l2) =
+  match run_from g c s l1 with Some s1 => run_from g c s1 l2 | None => None end.
+Proof.
+  induction l1 as [|e r IH]; intros l2 s; simpl; [reflexivity|].
+  destruct (step g c s e) as [s1|]; [apply IH|reflexivity].
+Qed.
+
+Lemma run_from_flags g c evs : forall s s', run_from g c s evs = Some s' ->
+  (fft s = true -> fft s' = true) /\ (ctxc s = true -> ctxc s' = true).
+Proof.
+  induction evs as [|e r IH]; intros s s' HR; simpl in HR.
+  - inversion HR. subst. auto.
+  - destruct (step g c s e) as [s1|] eqn:E; [|discriminate HR].
+    destruct (step_flags _ _ _ _ _ E) as [A [B _]]. destruct (IH s1 s' HR) as [A' B']. auto.
+Qed.
+
+Lemma independent_still_built : forall g c s n, topo g -> wf_graph g -> W c >= 1 ->
+  ff c = false -> reachable g c s -> ctxc s = false -> terminal g c s -> n < size g ->
+  (forall a, reach g a n -> st s a <> Failed) -> st s n = Ok \/ st s n = Failed.
+Proof.
+  intros g c s n HT HWF HW Hff Hreach EC Hterm Hn Hno.
+  assert (EF : fft s = false).
+  { destruct (fft s) eqn:E; [|reflexivity].
+    destruct (I_fft _ _ _ (reachable_inv g c s HT Hreach) E) as [A _]. congruence. }
+  destruct (no_cancel_all_done g c s HT HWF HW Hreach Hterm EF EC n Hn) as [H|[H|[_ [a [Ha Hr]]]]];
+    auto.
+  contradiction (Hno a Hr Ha).
+Qed.
+
+Definition started (x : status) : Prop :=
+  x = Queued \/ x = Running \/ x = Ok \/ x = Failed \/ x = Aborted.
+
+Lemma legal_started b x y : legal b x y -> started x -> started y.
+Proof.
+  unfold started. destruct x, y; simpl; intros H S; try contradiction; auto;
+    repeat (destruct S as [S|S]; try discriminate S).
+Qed.
+
+Lemma run_from_started g c n evs : forall s s', run_from g c s evs = Some s' ->
+  started (st s n) -> started (st s' n).
+Proof.
+  induction evs as [|e r IH]; intros s s' HR HS; simpl in HR.
+  - inversion HR. subst. exact HS.
+  - destruct (step g c s e) as [s1|] eqn:E; [|discriminate HR].
+    apply (IH s1 s' HR). destruct (step_status_cases _ _ _ _ _ E n) as [Q|L].
+    + rewrite Q. exact HS.
+    + eapply legal_started; eassumption.
+Qed.
+
+Lemma start_in_started g c n evs : forall s s', run_from g c s evs = Some s' ->
+  In (Start n) evs -> started (st s' n).
+Proof.
+  induction evs as [|e r IH]; intros s s' HR HIn; simpl in HR; [destruct HIn|].
+  destruct (step g c s e) as [s1|] eqn:E; [|discriminate HR].
+  destruct HIn as [HIn|HIn].
+  - subst e. apply (run_from_started g c n r s1 s' HR).
+    apply step_Start in E. destruct E as [_ [_ E]]. subst s1. proj. rewrite upd_same.
+    unfold started. auto.
+  - apply (IH s1 s' HR HIn).
+Qed.
+
+Lemma dependants_not_run : forall g c evs s a n, topo g -> wf_graph g ->
+  run g c evs = Some s -> st s a = Failed -> reach g a n -> ~ In (Start n) evs.
+Proof.
+  intros g c evs s a n HT _ HR HF Hre HIn.
+  pose proof (start_in_started g c n evs (init g) s HR HIn) as HS.
+  assert (HA : active (st s n)).
+  { unfold started in HS. unfold active. tauto. }
+  pose proof (inv_deps_reach g c s (run_inv g c evs s HT HR) a n Hre HA) as HO. congruence.
+Qed.
+
+Lemma no_cmd_after_cancel g c n evs : forall s s', run_from g c s evs = Some s' ->
+  inner_cancelled s = true -> ~ In (CmdStart n) evs.
+Proof.
+  induction evs as [|e r IH]; intros s s' HR HC HIn; simpl in HR; [destruct HIn|].
+  destruct (step g c s e) as [s1|] eqn:E; [|discriminate HR].
+  destruct HIn as [HIn|HIn].
+  - subst e. apply step_CmdStart in E. destruct E as [_ [_ [_ [E _]]]]. congruence.
+  - apply (IH s1 s' HR); [|exact HIn].
+    destruct (step_flags _ _ _ _ _ E) as [A [B _]].
+    apply inner_cancelled_true in HC. apply inner_cancelled_true. tauto.
+Qed.
+
+Lemma fail_sets_fft g c s a : ff c = true -> fft (complete_fail g c s a) = true.
+Proof.
+  intro H. destruct (complete_fail_spec g c s a) as [_ [_ [_ [_ [_ [_ Hc]]]]]].
+  destruct Hc as [[_ [F _]]|[[_ [_ [F _]]]|[_ [F _]]]]; congruence.
+Qed.
+
+Lemma fail_event_sets_fft g c s e a s' : ff c = true -> (e = FinishFail a \/ e = Reject a) ->
+  step g c s e = Some s' -> fft s' = true.
+Proof.
+  intros Hff [He|He] HS; subst e.
+  - apply step_FinishFail in HS. destruct HS as [_ [_ E]]. subst s'. apply fail_sets_fft. exact Hff.
+  - apply step_Reject in HS. destruct HS as [_ [_ [_ E]]]. subst s'. apply fail_sets_fft. exact Hff.
+Qed.
+
+Lemma failfast_no_new_command : forall g c pre e a post s n, ff c = true ->
+  (e = FinishFail a \/ e = Reject a) ->
+  run g c (pre ++ e :: post) = Some s -> ~ In (CmdStart n) post.
+Proof.
+  intros g c pre e a post s n Hff He HR. unfold run in HR. rewrite run_from_app in HR.
+  destruct (run_from g c (init g) pre) as [s0|]; [|discriminate HR]. simpl in HR.
+  destruct (step g c s0 e) as [s1|] eqn:E; [|discriminate HR].
+  apply (no_cmd_after_cancel g c n post s1 s HR).
+  apply inner_cancelled_true. left. eapply fail_event_sets_fft; eassumption.
+Qed.
+
+Lemma parked_no_start g c n evs : forall s s', fft s = true -> run_from g c s evs = Some s' ->
+  (st s n = Parked \/ st s n = Skipped) -> ~ In (Start n) evs.
+Proof.
+  induction evs as [|e r IH]; intros s s' EF HR HP HIn; simpl in HR; [destruct HIn|].
+  destruct (step g c s e) as [s1|] eqn:E; [|discriminate HR].
+  destruct HIn as [HIn|HIn].
+  - subst e. apply step_Start in E. destruct E as [_ [E _]]. destruct HP; congruence.
+  - apply (IH s1 s'); [| exact HR | | exact HIn].
+    + destruct (step_flags _ _ _ _ _ E) as [A _]. apply A. exact EF.
+    + destruct (step_status_cases _ _ _ _ _ E n) as [Q|L]; [rewrite Q; exact HP|].
+      rewrite EF in L. destruct HP as [HP|HP]; rewrite HP in L;
+        destruct (st s1 n); simpl in L; try contradiction; try discriminate L; auto.
+Qed.
+
+Lemma failfast_parked_never_start : forall g c pre e a post s1 s n, topo g -> wf_graph g ->
+  ff c = true -> (e = FinishFail a \/ e = Reject a) ->
+  run g c (pre ++ [e]) = Some s1 -> run_from g c s1 post = Some s -> st s1 n = Parked ->
+  ~ In (Start n) post.
+Proof.
+  intros g c pre e a post s1 s n _ _ Hff He HR1 HR2 HP.
+  unfold run in HR1. rewrite run_from_app in HR1.
+  destruct (run_from g c (init g) pre) as [s0|]; [|discriminate HR1]. simpl in HR1.
+  destruct (step g c s0 e) as [s1'|] eqn:E; [|discriminate HR1]. inversion HR1. subst s1'.
+  apply (parked_no_start g c n post s1 s); [|exact HR2|left; exact HP].
+  eapply fail_event_sets_fft; eassumption.
+Qed.
+
+Lemma c05_example :
+  exists evs s, run diamond (mkConfig 2 false) evs = Some s /\
+    terminal diamond (mkConfig 2 false) s /\
+    st s 0 = Ok /\ st s 1 = Failed /\ st s 2 = Ok /\ st s 3 = Skipped.
+Proof.
+  exists [Start 0; Pick 0; FinishOk 0; Start 1; Start 2; Pick 1; Pick 2; FinishFail 1; FinishOk 2;
+          CancelRecv 3; WalkReturn].
+  eexists. split; [vm_compute; reflexivity|].
+  unfold terminal. repeat split; vm_compute; reflexivity.
+Qed.
+
+Lemma no_start_after_cancel : forall g c pre post s n,
+  run g c (pre ++ CtxCancel :: post) = Some s -> ~ In (CmdStart n) post.
+Proof.
+  intros g c pre post s n HR. unfold run in HR. rewrite run_from_app in HR.
+  destruct (run_from g c (init g) pre) as [s0|]; [|discriminate HR]. cbn [run_from] in HR.
+  destruct (step g c s0 CtxCancel) as [s1|] eqn:E; [|discriminate HR].
+  apply (no_cmd_after_cancel g c n post s1 s HR).
+  apply step_CtxCancel in E. destruct E as [_ E]. subst s1. apply inner_cancelled_true. right. reflexivity.
+Qed.
+
+Lemma walk_returns_after_cancel : forall g c s, reachable g c s -> ctxc s = true -> ret s = false ->
+  In WalkReturn (enabled g c s).
+Proof.
+  intros g c s _ HC Hr. apply en_WalkReturn; [exact Hr|]. right. apply inner_cancelled_true. auto.
+Qed.
+
+Lemma cancelled_parked_skipped : forall g c s, topo g -> wf_graph g -> W c >= 1 ->
+  reachable g c s -> terminal g c s -> ctxc s = true ->
+  forall n, n < size g -> st s n <> Parked /\ st s n <> Ready /\ st s n <> Running.
+Proof.
+  intros g c s _ _ _ _ Hterm _ n Hn. apply terminal_spec in Hterm. destruct Hterm as [_ Hall].
+  destruct (settled_cases c s n (Hall n Hn)) as [H|[H|[H|[H|[H _]]]]]; rewrite H;
+    repeat split; discriminate.
+Qed.
